@@ -10,3 +10,5 @@ run table-free-field-arithmetic C02 C05 C01 C06 C20
 #  the walks of C13 schedule allocation failures for every call and rightly report it)
 run encode-heap-temporary C15 C16 C03 C17 C20 C14
 run seed-struct-layout C13 C06 C04 C15 C16 C10
+# a (correct) hash index for the unsorted lists, built inside polyseed_inject and read-only afterwards: new writable statics, no race
+run lookup-index-built-at-inject C20 C08 C07 C13 C09
